@@ -16,8 +16,8 @@ Open Scope N_scope.
 (* l[a:b]: 0 <= a <= b <= len(l) *)
 Definition slice_range {A} (l : list A) (a b : nat) (site : N) : res (list A) :=
   do t <- slice_to l b site; slice_from t a site.
-(* the Go int n-1 used as an index or slice bound: -1, hence out of range whatever the slice, when n = 0 *)
-Definition idx_pred (n : nat) (site : N) : res nat := match n with O => Panic site | S k => Ok k end.
+(* the Go int n-1 used as an index or slice bound ([idx_pred], Panic when n = 0): now in Kit/Chk.v, shared with the
+   SubRip / WebVTT / parseDuration transcriptions *)
 
 (* SSAOptions: two func values, either of which may be nil; calling a nil func value panics.  The callbacks only
    observe the line (they return nothing), so a non-nil one is [Some tt]. *)
